@@ -1,11 +1,18 @@
 /-
-`Impl.Cli` — the decision logic of cli.py `handle_path_command`: which `except`
-clause of which `try` block catches an exception raised by `compile`, by
-`json.load` or by `find`, and what the process then does (exit status, a
-diagnostic on stderr, a traceback only under `--debug`, nothing written to the
-output).  The handler tables and the exception hierarchy are the regenerated
-ones (`Generated.cliTries`, `Generated.excParents`), so the theorems are about
-the `except` clauses the source has now.
+`Impl.Cli` — the decision logic of cli.py `handle_path_command`: what the process
+does when `compile`, `json.load`, `find` or `values` raises an exception of a given
+class (exit status, a diagnostic on stderr, a traceback only under `--debug`,
+nothing written to the output), and the data flow of a successful run.
+
+The table `Generated.cliBehaviour` is regenerated on every run by *executing*
+`handle_path_command` once for every (stage, exception class, --debug) of a finite
+domain (Tie A, `gen_tables.extract_cli_behaviour`): every class of the JSONPath
+exception hierarchy at the compile, find and values steps, and the two document
+decoding errors at the load step.  It is exhaustive over that domain, so the
+theorems are about what the handlers do now, however they are written; what is
+assumed is that a handler's behaviour depends on the class of the exception only.
+`Generated.cliTrace` is the data flow of one successful run, observed by wrapping
+the library's own `compile`/`find`/`values`.
 
 Modelled, not verified: `argparse`, `json.load`/`json.dump`, file objects,
 process exit; compared by the `cli` correspondence (in-process and subprocess).
@@ -13,29 +20,9 @@ process exit; compared by the `cli` correspondence (in-process and subprocess).
 import JPV.Generated
 namespace JPV.Impl.Cli
 
-/-- `issubclass(exc, handler)` for the classes that matter: the JSONPath hierarchy from
-`Generated.excParents`, everything else by name -/
-def isSubclass (exc handler : String) : Bool :=
-  exc = handler ||
-  (match Generated.excParents.find? (fun p => p.1 = exc) with
-   | some p => p.2.contains handler
-   | none => false) ||
-  handler = "BaseException" || handler = "Exception"
-
-/-- the first `except` clause of try block `i` that catches `exc`: its behaviour string -/
-def catchIn (i : Nat) (exc : String) : Option String :=
-  match Generated.cliTries[i]? with
-  | none => none
-  | some (_, clauses) =>
-    (clauses.find? (fun c => c.1.any (fun h => isSubclass exc h))).map (·.2)
-
 inductive Stage where
   | compile | evaluate
 deriving DecidableEq, Repr
-
-def Stage.tryIndex : Stage → Nat
-  | .compile => 0
-  | .evaluate => 1
 
 structure Result where
   exitCode : Nat
@@ -44,32 +31,42 @@ structure Result where
   outputWritten : Bool
 deriving DecidableEq, Repr
 
-/-- what happens when `exc` is raised at `stage` -/
+/-- the row of the regenerated table -/
+def row (stage exc : String) (debug : Bool) : Option Result :=
+  (Generated.cliBehaviour.find? (fun r => r.1 = stage && r.2.1 = exc && r.2.2.1 = debug)).map
+    (fun r => ⟨r.2.2.2.1, r.2.2.2.2.1, r.2.2.2.2.2.1, r.2.2.2.2.2.2⟩)
+
+def loadErrors : List String := ["JSONDecodeError", "UnicodeDecodeError"]
+
+/-- an exception no handler is known for: the interpreter prints a traceback and exits 1 -/
+def uncaught : Result := ⟨1, 0, true, false⟩
+
+/-- what happens when `exc` is raised at `stage` (for `evaluate`: by `json.load` if it is a decoding error,
+otherwise by `find`) -/
 def onException (stage : Stage) (exc : String) (debug : Bool) : Result :=
-  match catchIn stage.tryIndex exc with
-  | some shape =>
-    if shape = "reraise-if-debug+stderr+exit1" then
-      if debug then ⟨1, 0, true, false⟩ else ⟨1, 1, false, false⟩
-    else ⟨1, 0, true, false⟩  -- a clause of another shape: not the well-behaved pattern
-  | none => ⟨1, 0, true, false⟩  -- uncaught: interpreter traceback, exit status 1
+  match stage with
+  | .compile => (row "compile" exc debug).getD uncaught
+  | .evaluate =>
+    if loadErrors.contains exc then (row "load" exc debug).getD uncaught
+    else (row "find" exc debug).getD uncaught
 
 /-- every stage succeeded -/
-def onSuccess : Result := ⟨0, 0, false, true⟩
+def onSuccess : Result := (row "ok" "" false).getD uncaught
 
-/-- the exception classes compile() and find() can raise (C13) and json.load can raise -/
+/-- the exception classes compile() and find() can raise (C13) -/
 def jsonpathErrors : List String :=
   ["JSONPathError", "JSONPathSyntaxError", "JSONPathTypeError", "JSONPathIndexError", "JSONPathNameError",
    "JSONPathRecursionError", "JSONPathLexerError"]
 
-def loadErrors : List String := ["JSONDecodeError", "UnicodeDecodeError"]
+/-- the report the property asks for -/
+def reported (debug : Bool) : Result := if debug then ⟨1, 0, true, false⟩ else ⟨1, 1, false, false⟩
 
-/-- the steps each try block wraps, and the output step after them -/
+/-- the data flow of a successful run: the query text goes to compile, the decoded document to find, and what
+is written is the JSON text of `.values()` -/
 def wiring : Bool :=
-  (match Generated.cliTries with
-   | [(c0, _), (c1, _)] =>
-     c0.contains "jsonpath.JSONPathEnvironment().compile" && c1.contains "json.load" &&
-     c1.contains "path.find" && c1.contains "path.find().values"
-   | _ => false) &&
-  Generated.cliTail.contains "json.dump(values, args.output, indent=indent)"
+  match Generated.cliTrace with
+  | [c, f, v, o] =>
+    c = "compile:$.a" && f = "find:{\"a\": [1, 2]}" && v = "values:[[1, 2]]" && o = "output:[[1, 2]]"
+  | _ => false
 
 end JPV.Impl.Cli
